@@ -17,7 +17,11 @@ FLAGGED = [
     "We saw a tset here", "an apple and a apple", "it is better then that", "the the end", "I recieve mail", "teh cat sat", "alot of things",
     "could of been", "the 1st and 2rd place", "i am here", "This is a a test", "She said its fine",
 ]
-LEADS = ["", "\U0001F600 ", "é café ", "\U0001D400\U0001D401 ", "\t", "中文 ", "\U0001F468‍\U0001F469‍\U0001F467 ok ", "  "]
+LEADS = ["", "\U0001F600 ", "é café ", "\U0001D400\U0001D401 ", "\t", "中文 ", "\U0001F468\u200d\U0001F469\u200d\U0001F467 ok ", "  ",
+         "\U0001F600" * 10 + " ", "\U0001D400\U0001D401\U0001D402\U0001D403\U0001D404\U0001D405 ", "\U0001F600\U0001F600\U0001F600\U0001F600 \U0001F600\U0001F600\U0001F600\U0001F600 "]
+SHORT = ["is is", "and and", "the the", "teh", "a a"]
+# lints that cross a line break (repeated word over a newline / soft break / consecutive comment lines)
+CROSS = [("This is the", "the test"), ("We went to to", "to the shop"), ("\U0001F600 it was and", "and so on")]
 LANGS = ["plaintext", "markdown", "html", "typst", "git-commit", "rust", "javascript", "python"]
 
 
@@ -42,7 +46,12 @@ def make_prose_lines(rng, sentences):
         if r < 0.12:
             lines.append("")
             continue
-        body = rng.choice(FLAGGED) if r < 0.7 else rng.choice(sentences)
+        if r > 0.9 and len(lines) < n:
+            a, b = rng.choice(CROSS)
+            lines.append(a)
+            lines.append(b + ".")
+            continue
+        body = rng.choice(SHORT) if r < 0.2 else rng.choice(FLAGGED) if r < 0.7 else rng.choice(sentences)
         lead = rng.choice(LEADS)
         tail = rng.choice([".", ".", " \U0001F600.", ".  ", ""])
         lines.append(lead + body + tail)
@@ -208,7 +217,9 @@ def run(tier, seed, scale, verif):
     ndocs = int((60 if tier == "quick" else 1500) * scale)
     docs = [make_doc(rng, sentences) for _ in range(ndocs)]
     # fixed edge cases: lints on the last line without a trailing newline, first line, CRLF, astral before lint
-    docs += [("plaintext", "Fine line.\nWe saw a tset"), ("plaintext", "teh"), ("markdown", "\U0001F600 teh end\r\n\r\nan apple and a apple"),
+    docs += [("plaintext", "This is the\nthe test."), ("markdown", "Soft break the\nthe end.\n"), ("rust", "// comment with the\n// the repeated word\nfn main() {}\n"),
+             ("plaintext", "\U0001F600" * 10 + " and and\n"), ("plaintext", "ok\n\U0001D400\U0001D401\U0001D402\U0001D403\U0001D404\U0001D405 is is"),
+             ("plaintext", "Fine line.\nWe saw a tset"), ("plaintext", "teh"), ("markdown", "\U0001F600 teh end\r\n\r\nan apple and a apple"),
              ("plaintext", "We saw a tset.\n\n\nthe the end\n"), ("rust", "// teh cat\nfn main() {}\n// an apple and a apple")]
     base = os.path.join(verif, "target", "run", "c08")
     shutil.rmtree(base, ignore_errors=True)
